@@ -60,6 +60,8 @@ class FnCfg:
     unbound_defaults: Dict[str, str] = field(default_factory=dict)
     ret_type: Optional[str] = None
     closure: List[Tuple[str, Optional[str], Optional[str]]] = field(default_factory=list)  # captured variables, bound before params
+    ret_tag: Optional[str] = None   # type tag of the python-level result
+    ret_unwrap_opt: bool = False
     none_params: List[str] = field(default_factory=list)     # params that are option-typed (None default)
 
 
@@ -119,6 +121,9 @@ class Translator:
                 return self._apply(p, [base], pre)
             fail(e, f"attribute {e.attr} of type tag {bty} not in primitive table")
         if isinstance(e, ast.Subscript):
+            sp = m.special_subscript(e, env, self, pre)
+            if sp is not None:
+                return sp
             base, bty = self.expr(e.value, env, pre)
             if isinstance(e.slice, ast.Slice):
                 lo = self.expr(e.slice.lower, env, pre)[0] if e.slice.lower is not None else None
@@ -134,9 +139,11 @@ class Translator:
             if key in m.methods:
                 return self._apply(m.methods[key], [base, idx], pre)
             fail(e, f"subscript of type tag {bty}")
+        if isinstance(e, ast.UnaryOp) and isinstance(e.op, ast.USub) and isinstance(e.operand, ast.Constant) and isinstance(e.operand.value, int):
+            return (f"(-{e.operand.value})%Z", "int")
         if isinstance(e, ast.UnaryOp) and isinstance(e.op, ast.Not):
-            t, _ = self.expr(e.operand, env, pre)
-            return (f"(negb {t})", "bool")
+            t, ty = self.expr(e.operand, env, pre)
+            return (f"(negb {m.truthy(t, ty)})", "bool")
         if isinstance(e, ast.BoolOp):
             return self._boolop(e, env, pre)
         if isinstance(e, ast.Compare):
@@ -171,6 +178,13 @@ class Translator:
             fail(e, f"binop {key}")
         if isinstance(e, ast.Call):
             return self._call(e, env, pre)
+        if isinstance(e, (ast.ListComp, ast.GeneratorExp, ast.DictComp, ast.SetComp)):
+            return self._comp(e, env, pre)
+        if isinstance(e, ast.Dict):
+            return m.dict_literal(e, env, self, pre)
+        if isinstance(e, ast.Set):
+            parts = [self.expr(x, env, pre) for x in e.elts]
+            return m.set_literal([p[0] for p in parts])
         if isinstance(e, ast.IfExp):
             c, _ = self.expr(e.test, env, pre)
             pa, pb = [], []
@@ -182,6 +196,59 @@ class Translator:
                 return (v, aty)
             return (f"(if {c} then {a} else {b})", aty)
         fail(e, "expression form outside VPy")
+
+    def _comp(self, e, env, pre, reducer=None):
+        """[elt for x in it if c] -> filter + map_res; {k: v for ...} -> assoc list."""
+        m = self.m
+        if len(e.generators) != 1 or e.generators[0].is_async:
+            fail(e, "comprehension with several generators")
+        g = e.generators[0]
+        it, ity = self.expr_iter(g.iter, env, pre)
+        elem_ty = ity.split(":", 1)[1] if ity and ":" in ity else None
+        env2 = dict(env)
+        if isinstance(g.target, ast.Name):
+            nm = m.coq_name(g.target.id)
+            env2[g.target.id] = (nm, elem_ty)
+            pat = nm
+        elif isinstance(g.target, ast.Tuple) and all(isinstance(x, ast.Name) for x in g.target.elts):
+            tys = elem_ty.split(":", 1)[1].split(",") if elem_ty and elem_ty.startswith("tuple:") else [None] * len(g.target.elts)
+            names = []
+            for x, ty in zip(g.target.elts, tys):
+                nm = m.coq_name(x.id) if x.id != "_" else "_"
+                names.append(nm)
+                if x.id != "_":
+                    env2[x.id] = (nm, None if ty == "None" else ty)
+            pat = "'(" + ", ".join(names) + ")"
+        else:
+            fail(e, "comprehension target")
+        for c in g.ifs:
+            cp = []
+            ct, _ = self.expr(c, env2, cp)
+            if cp:
+                fail(e, "monadic comprehension filter")
+            it = f"(filter (fun {pat} => {ct}) {it})"
+        ep = []
+        if isinstance(e, ast.DictComp):
+            k, kty = self.expr(e.key, env2, ep)
+            v, vty = self.expr(e.value, env2, ep)
+            elt, rty = f"({k}, {v})", f"dict:{vty}"
+        else:
+            elt, ety = self.expr(e.elt, env2, ep)
+            rty = f"list:{ety}" if ety else "list"
+            if isinstance(e, ast.SetComp):
+                rty = "set"
+        if reducer:
+            body = self.wrap(ep, f"ret {elt}")
+            v = self.fresh("v")
+            pre.append((v, f"({reducer} (fun {pat} => {body}) {it})"))
+            return (v, "bool")
+        wrapd = (lambda t: m.dictcomp_wrap(t)) if isinstance(e, ast.DictComp) else (lambda t: t)
+        if ep:
+            body = self.wrap(ep, f"ret {elt}")
+            v = self.fresh("v")
+            pre.append((v, f"(map_res (fun {pat} => {body}) {it})"))
+            return (wrapd(v), rty)
+        return (wrapd(f"(map (fun {pat} => {elt}) {it})"), rty)
 
     def _boolop(self, e, env, pre):
         is_and = isinstance(e.op, ast.And)
@@ -219,6 +286,26 @@ class Translator:
         if e.keywords and not m.allow_keywords(e):
             fail(e, "keyword arguments")
         f = e.func
+        sp = m.special_call(e, env, self, pre)
+        if sp is not None:
+            return sp
+        if isinstance(f, ast.Attribute) and isinstance(f.value, ast.Name) and f.value.id in m.module_aliases:
+            dotted = f"{f.value.id}.{f.attr}"
+            if dotted in m.funcs:
+                args = [self._arg(a, env, pre) for a in e.args]
+                kw = {k.arg: self.expr(k.value, env, pre)[0] for k in e.keywords}
+                p = m.funcs[dotted]
+                if kw:
+                    p = Prim(lambda *a, _p=p, _kw=kw: _p.emit(*a, **_kw), p.monadic, p.ty, p.rebinds)
+                return self._apply(p, args, pre)
+            fail(e, f"library function {dotted} not in primitive table")
+        if isinstance(f, ast.Name) and f.id in m.user_funcs:
+            return self.user_call(m.user_funcs[f.id], e.args, e.keywords, env, pre, e)
+        if isinstance(f, ast.Attribute) and (f.attr in m.user_methods):
+            base, bty = self.expr(f.value, env, pre)
+            if (bty, f.attr) in m.user_methods_by_tag:
+                cfg = m.user_methods_by_tag[(bty, f.attr)]
+                return self.user_call(cfg, e.args, e.keywords, env, pre, e, receiver=(f.value, base))
         # method call  obj.meth(args)
         if isinstance(f, ast.Attribute):
             base, bty = self.expr(f.value, env, pre)
@@ -229,6 +316,8 @@ class Translator:
                 return self._apply(m.methods[key], [base] + args, pre) if not kw else \
                     self._apply(Prim(lambda *a, _p=m.methods[key], _kw=kw: _p.emit(*a, **_kw), m.methods[key].monadic, m.methods[key].ty), [base] + args, pre)
             fail(e, f"method {f.attr} on type tag {bty} not in primitive table")
+        if isinstance(f, ast.Name) and f.id in ("all", "any") and len(e.args) == 1 and isinstance(e.args[0], (ast.GeneratorExp, ast.ListComp)):
+            return self._comp(e.args[0], env, pre, reducer="py_all" if f.id == "all" else "py_any")
         if isinstance(f, ast.Name):
             args = [self._arg(a, env, pre) for a in e.args]
             if f.id in env and env[f.id][1] and env[f.id][1].startswith("fun"):
@@ -245,6 +334,69 @@ class Translator:
                 return self._apply(p, args, pre)
             fail(e, f"call of unknown function {f.id}")
         fail(e, "call form")
+
+    def user_call(self, cfg, args, keywords, env, pre, node, receiver=None):
+        """Call of a translated visions function/method.  Threaded parameters are rebound in the
+        caller (the callee returns their final value next to its result)."""
+        m = self.m
+        params = list(cfg.params)
+        actual = {}
+        pos = list(args)
+        if receiver is not None:
+            actual[params[0][0]] = receiver     # (ast lvalue, term)
+            params_rest = params[1:]
+        else:
+            params_rest = params
+        if len(pos) > len(params_rest):
+            fail(node, "too many positional arguments")
+        for (pn, _, _), a in zip(params_rest, pos):
+            actual[pn] = (a, None)
+        for k in keywords:
+            if k.arg not in [p[0] for p in params_rest] or k.arg in actual:
+                fail(node, f"keyword {k.arg}")
+            actual[k.arg] = (k.value, None)
+        terms = []
+        rebound = {}
+        for (pn, cty, tag) in params:
+            if pn not in actual:
+                if pn in cfg.none_params:
+                    terms.append("None")
+                    continue
+                if pn in cfg.defaults:
+                    terms.append(cfg.defaults[pn])
+                    continue
+                fail(node, f"missing argument {pn}")
+            a, t = actual[pn]
+            if t is None:
+                t = self.expr(a, env, pre)[0]
+            if pn in cfg.none_params:
+                t = f"(Some {t})"
+            terms.append(t)
+            if pn in cfg.threaded and cfg.ret_threaded:
+                rebound[pn] = a
+        ambient = [x for x in cfg.threaded if x not in [p[0] for p in params]]
+        for x in ambient:
+            if x not in env:
+                fail(node, f"ambient threaded variable {x} not in scope")
+            terms.append(env[x][0])
+        fuel = "fuel " if cfg.fuel else ""
+        call = f"({cfg.name} {fuel}{' '.join(terms)})"
+        v = self.fresh("v")
+        if cfg.ret_threaded and cfg.threaded:
+            pats = []
+            for x in cfg.threaded:
+                if x in rebound and isinstance(rebound[x], ast.Name) and rebound[x].id in env:
+                    pats.append(env[rebound[x].id][0])
+                elif x in ambient:
+                    pats.append(env[x][0])
+                elif x in rebound and isinstance(rebound[x], ast.Attribute):
+                    pats.append("_")   # mutation of a field reached through the receiver is returned inside it
+                else:
+                    pats.append("_")
+            pre.append((f"'({v}, {', '.join(pats)})", call))
+        else:
+            pre.append((v, call))
+        return (v, cfg.ret_tag)
 
     def _arg(self, a, env, pre):
         if isinstance(a, ast.Starred):
@@ -305,20 +457,37 @@ class Translator:
         if isinstance(target, ast.Name):
             env2 = dict(env)
             nm = m.coq_name(target.id)
+            if value_ty in ("dict?", "list") and target.id in m.var_tags:
+                value_ty = m.var_tags[target.id]
             env2[target.id] = (nm, value_ty)
             return f"let {nm} := {value_term} in\n" + body_k(env2)
         if isinstance(target, ast.Tuple):
-            names = []
             env2 = dict(env)
-            tys = value_ty.split(":", 1)[1].split(",") if value_ty and value_ty.startswith("tuple:") else [None] * len(target.elts)
-            for x, ty in zip(target.elts, tys):
-                if not isinstance(x, ast.Name):
-                    fail(target, "nested tuple target")
-                nm = m.coq_name(x.id) if x.id != "_" else "_"
-                names.append(nm)
-                if x.id != "_":
-                    env2[x.id] = (nm, None if ty == "None" else ty)
-            return f"let '({', '.join(names)}) := {value_term} in\n" + body_k(env2)
+            later = []
+
+            def pat_of(t, ty):
+                if isinstance(t, ast.Name):
+                    if t.id == "_":
+                        return "_"
+                    nm = m.coq_name(t.id)
+                    env2[t.id] = (nm, None if ty in ("None", None) else ty)
+                    return nm
+                if isinstance(t, ast.Tuple):
+                    tys = split_tuple_tag(ty, len(t.elts))
+                    return "(" + ", ".join(pat_of(x, y) for x, y in zip(t.elts, tys)) + ")"
+                if isinstance(t, ast.Attribute):
+                    tmp = self.fresh("tmp")
+                    later.append((t, tmp, ty))
+                    return tmp
+                fail(target, "tuple target element")
+            pat = pat_of(target, value_ty)
+
+            def cont(e3, i=0):
+                if i == len(later):
+                    return body_k(e3)
+                t, tmp, ty = later[i]
+                return self.store(t, tmp, ty, e3, lambda e4: cont(e4, i + 1))
+            return f"let '{pat} := {value_term} in\n" + cont(env2)
         if isinstance(target, ast.Attribute) and isinstance(target.value, ast.Name):
             obj = target.value.id
             oterm, oty = env[obj]
@@ -380,6 +549,15 @@ class Translator:
             pre = []
             v, ty = self.expr(s.value, env, pre)
             return self.wrap(pre, self.store(s.targets[0], v, ty, env, nxt))
+        if isinstance(s, ast.AugAssign):
+            pre = []
+            l, lty = self.expr(s.target, env, pre)
+            r, rty = self.expr(s.value, env, pre)
+            key = (lty, rty, type(s.op).__name__)
+            if key not in m.binops:
+                fail(s, f"augmented assignment {key}")
+            v, ty = self._apply(m.binops[key], [l, r], pre)
+            return self.wrap(pre, self.store(s.target, v, ty, env, nxt))
         if isinstance(s, ast.AnnAssign):
             if s.value is None:
                 return nxt(env)
@@ -404,9 +582,27 @@ class Translator:
             special = m.special_if(s, env, self, fn, nxt, in_loop)
             if special is not None:
                 return special
+            # idiom:  if x is None: x = E      (x an option-typed parameter)
+            t = s.test
+            if (isinstance(t, ast.Compare) and len(t.ops) == 1 and isinstance(t.ops[0], ast.Is)
+                    and isinstance(t.left, ast.Name) and isinstance(t.comparators[0], ast.Constant)
+                    and t.comparators[0].value is None and not s.orelse and len(s.body) == 1
+                    and isinstance(s.body[0], ast.Assign) and len(s.body[0].targets) == 1
+                    and isinstance(s.body[0].targets[0], ast.Name) and s.body[0].targets[0].id == t.left.id
+                    and env.get(t.left.id, (None, ""))[1] and str(env[t.left.id][1]).startswith("opt:")):
+                x = t.left.id
+                pre = []
+                dv, dty = self.expr(s.body[0].value, env, pre)
+                if pre:
+                    fail(s, "monadic default value")
+                dv = m.coerce_default(dv, dty, env[x][1][4:])
+                nm = m.coq_name(x)
+                env2 = dict(env)
+                env2[x] = (nm, env[x][1][4:])
+                return f"let {nm} := match {env[x][0]} with None => {dv} | Some x_ => x_ end in\n" + nxt(env2)
             pre = []
-            c, _ = self.expr(s.test, env, pre)
-            a = self.block(s.body, env, fn, lambda e2: nxt(self.merge(env, e2)), in_loop) if False else None
+            c, cty = self.expr(s.test, env, pre)
+            c = m.truthy(c, cty)
             # continuation duplication: both branches continue with `rest`
             a = self.block(s.body + rest, env, fn, k, in_loop)
             b = self.block(s.orelse + rest, env, fn, k, in_loop)
@@ -425,10 +621,15 @@ class Translator:
 
     def ret(self, value, env, fn: FnCfg, in_loop):
         pre = []
+        vty = None
         if value is None:
             v = "tt"
         else:
-            v, _ = self.expr(value, env, pre)
+            v, vty = self.expr(value, env, pre)
+        if vty and str(vty).startswith("opt:") and fn.ret_unwrap_opt:
+            u = self.fresh("u")
+            pre.append((u, f"(match {v} with Some x_ => ret x_ | None => Raise OtherExn end)"))
+            v = u
         thr = [env[t][0] for t in fn.threaded] if fn.ret_threaded else []
         tup = "(" + ", ".join([v] + thr) + ")" if thr else v
         if in_loop is not None:
@@ -440,17 +641,21 @@ class Translator:
         dropped."""
         m = self.m
         f = call.func
-        if isinstance(f, ast.Attribute):
+        special = m.special_call_stmt(call, env, self, fn, nxt)
+        if special is not None:
+            return special
+        if isinstance(f, ast.Attribute) and not (isinstance(f.value, ast.Name) and f.value.id in m.module_aliases):
             pre = []
             recv, rty = self.expr(f.value, env, pre)
             key = (rty, f.attr)
             if key in m.mutators:
                 args = [self._arg(a, env, pre) for a in call.args]
-                new, _ = self._apply(m.mutators[key], [recv] + args, pre)
+                kw = {k.arg: self.expr(k.value, env, pre)[0] for k in call.keywords}
+                p = m.mutators[key]
+                if kw:
+                    p = Prim(lambda *a, _p=p, _kw=kw: _p.emit(*a, **_kw), p.monadic, p.ty, p.rebinds)
+                new, _ = self._apply(p, [recv] + args, pre)
                 return self.wrap(pre, self.store_back(f.value, new, rty, env, nxt))
-        special = m.special_call_stmt(call, env, self, fn, nxt)
-        if special is not None:
-            return special
         pre = []
         self.expr(call, env, pre)
         return self.wrap(pre, nxt(env))
@@ -458,8 +663,6 @@ class Translator:
     def for_stmt(self, s, env, fn, nxt, outer_loop):
         if s.orelse:
             fail(s, "for-else")
-        if outer_loop is not None:
-            fail(s, "nested loop with early exit is outside VPy")
         m = self.m
         pre = []
         it, ity = self.expr_iter(s.iter, env, pre)
@@ -470,7 +673,7 @@ class Translator:
         cnames = carried + leaked
         env0 = dict(env)
         for v in leaked:
-            env0[v] = (fn.unbound_defaults[v], None)
+            env0[v] = tuple(fn.unbound_defaults[v])
         pack = lambda e: "(" + ", ".join([e[v][0] for v in cnames] + ["tt"]) + ")"
         pat_names = [m.coq_name(v) for v in cnames]
         pat = "'(" + ", ".join(pat_names + ["_"]) + ")"
@@ -493,8 +696,12 @@ class Translator:
         for v, nm in zip(cnames, pat_names):
             env_after[v] = (nm, env0[v][1])
         after = nxt(env_after)
-        code = (f"{r} <- for_each {it} {pack(env0)} (fun {xname} {pat} =>\n{body}) ;;\n"
-                f"match {r} with\n| LoopReturned rr => ret rr\n| LoopDone {pat} =>\n{after}\nend")
+        retk = "ret (LReturn rr)" if outer_loop is not None else "ret rr"
+        if not self._has_return(s.body):
+            retk = "Raise OtherExn (* unreachable: no return in this loop *)"
+        fe = "for_each" if self._has_return(s.body) else "for_each (R:=unit)"
+        code = (f"{r} <- {fe} {it} {pack(env0)} (fun {xname} {pat} =>\n{body}) ;;\n"
+                f"match {r} with\n| LoopReturned rr => {retk}\n| LoopDone {pat[1:]} =>\n{after}\nend")
         return self.wrap(pre, code)
 
     def expr_iter(self, e, env, pre):
@@ -505,6 +712,8 @@ class Translator:
             return self._apply(self.m.methods[key], [t], pre)
         if ty and (ty == "list" or ty.startswith("list:")):
             return (t, ty)
+        if ty in self.m.iter_tags:
+            return (t, "list:" + self.m.iter_tags[ty])
         fail(e, f"iteration over type tag {ty}")
 
     def try_stmt(self, s, rest, env, fn, k, in_loop):
@@ -574,6 +783,10 @@ class Translator:
             nm = m.coq_name(pyname)
             env[pyname] = (nm, tag)
             binders.append(f"({nm} : {cty})" if cty else nm)
+        for x in fn.threaded:
+            if x not in [p[0] for p in fn.closure + fn.params]:
+                env[x] = (x, m.ambient[x][1])
+                binders.append(f"({x} : {m.ambient[x][0]})")
         # check the python signature agrees with the driver's view (fail closed on drift)
         pyparams = [a.arg for a in fdef.args.args]
         if fdef.args.vararg:
@@ -587,12 +800,35 @@ class Translator:
             thr = [e[t][0] for t in fn.threaded] if fn.ret_threaded else []
             return "ret " + ("(" + ", ".join(["tt"] + thr) + ")" if thr else "tt")
 
-        body = self.block(fdef.body, env, fn, k_end)
+        body = m.body_prefix + self.block(fdef.body, env, fn, k_end)
         rt = f" : {fn.ret_type}" if fn.ret_type else ""
+        if fn.fuel and getattr(fn, "fuel_passthrough", False):
+            return f"Definition {fn.name} {' '.join(binders)}{rt} :=\n{body}.\n"
         if fn.fuel:
             return (f"Fixpoint {fn.name} {' '.join(binders)} {{struct fuel}}{rt} :=\n"
                     f"match fuel with\n| O => Raise OutOfFuel\n| S fuel =>\n{body}\nend.\n")
         return f"Definition {fn.name} {' '.join(binders)}{rt} :=\n{body}.\n"
+
+
+def split_tuple_tag(ty, n):
+    """'tuple:a,b,tuple:(c,d)' is not supported; nested tuple tags use ';' inside brackets."""
+    if not ty or not ty.startswith("tuple:"):
+        return [None] * n
+    body = ty[len("tuple:"):]
+    parts, depth, cur = [], 0, ""
+    for ch in body:
+        if ch == "<":
+            depth += 1
+        if ch == ">":
+            depth -= 1
+        if ch == "," and depth == 0:
+            parts.append(cur)
+            cur = ""
+        else:
+            cur += ch
+    parts.append(cur)
+    parts = [p[1:-1] if p.startswith("<") and p.endswith(">") else p for p in parts]
+    return parts if len(parts) == n else [None] * n
 
 
 def find_def(tree, name, cls=None):
@@ -623,10 +859,43 @@ class ModuleCfg:
         self.binops: Dict[Tuple[str, str, str], Prim] = {}
         self.globals_: Dict[str, Tuple[str, str]] = {}
         self.var_tags: Dict[str, str] = {}
+        self.module_aliases = set()
+        self.body_prefix = ""
+        self.iter_tags = {}
+        self.ambient = {"warns": ("list warning", "warns")}
+        self.user_funcs: Dict[str, FnCfg] = {}
+        self.user_methods = set()
+        self.user_methods_by_tag: Dict[Tuple[str, str], FnCfg] = {}
+
+    def special_call(self, e, env, tr, pre):
+        return None
+
+    def special_subscript(self, e, env, tr, pre):
+        return None
+
+    def coerce_default(self, term, tag, want):
+        return term
+
+    def dictcomp_wrap(self, term):
+        raise TransError("dict comprehension not modelled by this driver")
+
+    def truthy(self, term, tag):
+        """python truthiness of a non-bool value used as a condition"""
+        if tag in (None, "bool"):
+            return term
+        if tag and (tag == "list" or tag.startswith("list:") or tag in ("set", "path", "dict") or tag.startswith("dict:")):
+            return f"(negb (match {term} with [] => true | _ => false end))"
+        raise TransError(f"truthiness of type tag {tag}")
 
     def coq_name(self, py):
         reserved = {"type", "end", "in", "at", "as", "return", "match", "with", "let", "fun", "forall", "exists", "if", "then", "else", "fix", "Type", "Set", "Prop"}
         return py + "_" if py in reserved or py.endswith("_") else py
+
+    def dict_literal(self, e, env, tr, pre):
+        raise TransError("dict literal not modelled by this driver")
+
+    def set_literal(self, terms):
+        raise TransError("set literal not modelled by this driver")
 
     def string_const(self, s):
         raise TransError(f"string constant {s!r} not modelled")
@@ -654,12 +923,34 @@ class ModuleCfg:
 
     def mutated_roots(self, call, tr):
         f = call.func
+        out = []
         if isinstance(f, ast.Attribute):
             for (ty, name) in self.mutators:
                 if f.attr == name:
                     r = Translator._root(f.value)
-                    return [r] if r else []
-        return []
+                    if r:
+                        out.append(r)
+        cfg = None
+        recv = None
+        if isinstance(f, ast.Name) and f.id in self.user_funcs:
+            cfg = self.user_funcs[f.id]
+        elif isinstance(f, ast.Attribute) and f.attr in self.user_methods:
+            cands = [c for (t, n), c in self.user_methods_by_tag.items() if n == f.attr]
+            cfg = cands[0] if cands else None
+            recv = f.value
+        if cfg is not None and cfg.ret_threaded:
+            params = [p[0] for p in cfg.params]
+            if recv is not None:
+                if params[0] in cfg.threaded:
+                    r = Translator._root(recv)
+                    if r:
+                        out.append(r)
+                params = params[1:]
+            for pn, a in list(zip(params, call.args)) + [(k.arg, k.value) for k in call.keywords]:
+                if pn in cfg.threaded and isinstance(a, ast.Name):
+                    out.append(a.id)
+            out += [x for x in cfg.threaded if x not in [p[0] for p in cfg.params]]
+        return out
 
     def special_assign(self, s, env, tr, fn, nxt):
         return None
